@@ -203,7 +203,23 @@ func (x *lruCtx) hasEviction(traces []*Trace) bool {
 
 // infeasible: list contract — Back() of a list whose accounted size is positive is non-nil is not modelled;
 // the only infeasible paths pruned here are `element == nil` after a successful commaok lookup.
-func (x *lruCtx) infeasible(t *Trace) bool { return false }
+//
+// One more contract is used: every element this rule set lets into the list carries a fresh *entry (checked by
+// `coupled`: PushFront(&entry{...})), so the entry type-asserted out of an element's Value is never nil; a path
+// that found it nil (a helper answering "hit" with the entry pointer, tested by its caller) cannot happen.
+func (x *lruCtx) infeasible(t *Trace) bool {
+	for _, f := range t.factsBefore(len(t.Events)) {
+		if f.Op != token.EQL {
+			continue
+		}
+		for _, pair := range [][2]*Sym{{f.X, f.Y}, {f.Y, f.X}} {
+			if _, isEntry := entryOfElem(pair[0]); isEntry && pair[1].isNilConst() {
+				return true
+			}
+		}
+	}
+	return false
+}
 
 // lookedUp: the element returned by the table lookup of this path (nil if none), and whether it was found.
 func (x *lruCtx) lookedUp(t *Trace) (elem *Sym, found, known bool) {
